@@ -2061,7 +2061,12 @@ public:
     SBEPP_CPP14_CONSTEXPR random_access_iterator&
         operator-=(difference_type n) noexcept
     {
-        return *this += -n;
+        // `*this += -n` is not used here because `-n` might not be
+        // representable by `difference_type`
+        ptr -= static_cast<std::ptrdiff_t>(n)
+               * static_cast<std::ptrdiff_t>(block_length);
+        index -= n;
+        return *this;
     }
 
     SBEPP_CPP14_CONSTEXPR random_access_iterator
@@ -2390,7 +2395,16 @@ public:
     SBEPP_CPP14_CONSTEXPR reference operator[](size_type pos) const noexcept
     {
         SBEPP_ASSERT(pos < size());
-        return *(begin() + pos);
+        // `begin() + pos` is not used here because `pos` might not be
+        // representable by `difference_type`
+        auto dimension = (*this)(get_header_tag{});
+        const auto block_length = dimension.blockLength().value();
+        return *iterator{
+            (*this)(addressof_tag{}) + sbepp::size_bytes(dimension)
+                + static_cast<std::size_t>(pos) * block_length,
+            block_length,
+            pos,
+            (*this)(end_ptr_tag{})};
     }
 
     //! @brief Returns the first entry
